@@ -1,23 +1,59 @@
 """Per-property claims (source of MANIFEST.json; tools/gen_manifest.py renders it)."""
 HOOK_COMMITS = []
 ENGINES = [
-    {"name": "lean-model", "path": "lean/", "serves_properties": ["C01", "C02", "C03", "C04", "C05", "C06", "C07", "C08", "C09", "C10", "C13", "C15", "C18", "C11", "C12", "C16", "C17", "C20"],
+    {"name": "lean-model", "path": "lean/", "serves_properties": ["C01", "C02", "C03", "C04", "C05", "C06", "C07", "C08", "C09", "C10", "C13", "C15", "C18", "C19", "C11", "C12", "C16", "C17", "C20"],
      "kind_free_text": "Lean 4 library Dbus (Spec, Model, Proofs, Props) + compiled line-protocol driver dbus-model"},
-    {"name": "tabulator", "path": "gen/", "serves_properties": ["C01", "C02", "C03", "C04", "C05", "C06", "C07", "C08", "C09", "C10", "C13", "C15", "C18", "C11", "C12", "C16", "C17", "C20"],
+    {"name": "tabulator", "path": "gen/", "serves_properties": ["C01", "C02", "C03", "C04", "C05", "C06", "C07", "C08", "C09", "C10", "C13", "C15", "C18", "C19", "C11", "C12", "C16", "C17", "C20"],
      "kind_free_text": "C translation units that #include repo sources and print finite tables; rendered to lean/Dbus/Generated"},
-    {"name": "h-lib", "path": "harness/lib/", "serves_properties": ["C01", "C02", "C03", "C04", "C05", "C06", "C07", "C08", "C09", "C10", "C13", "C15", "C18", "C11", "C12", "C16", "C17", "C20"],
+    {"name": "h-lib", "path": "harness/lib/", "serves_properties": ["C01", "C02", "C03", "C04", "C05", "C06", "C07", "C08", "C09", "C10", "C13", "C15", "C18", "C19", "C11", "C12", "C16", "C17", "C20"],
      "kind_free_text": "in-process C harnesses linked against the ASan/UBSan build of the working tree"},
 ]
 PENDING = "not implemented yet in this round (planned, see DESIGN.md §4/§7); no check is claimed"
 NOT_APPLICABLE = {p: PENDING for p in
-                  ["C14",
-                   "C19"]}
+                  ["C14"]}
 BUS_TIE = ("The bus model (lean/Dbus/Model/Bus: dispatch, driver methods, registry, match delivery, policy gate, pending replies, "
            "disconnect cleanup; method table regenerated from bus/driver.c) is tied to the real dbus-daemon (ASan/UBSan build of the working "
            "tree) by generated histories over raw sockets: after every operation every connection's received messages and every "
            "connection closed by the bus must equal what the model's step emits; disagreements are classified by a trace oracle "
            "written independently of the model. ")
 CHECKS = {
+    "C19": {
+        "text": "Proved in Lean over the activation layer of the bus model (lean/Dbus/Model/Bus/Activation.lean: bus_activation_activate_service, "
+                "the auto-start branch of bus_dispatch, StartServiceByName, bus_activation_service_created and "
+                "bus_activation_send_pending_auto_activation_messages inside bus_registry_ensure/acquire_service, pending_activation_failed, the "
+                "babysitter's finished callback with its same-Exec fan-out, the start timeout; built on the bus core's send primitives) for every "
+                "state and event: a step starts at most one program, only for a name with no pending activation, which then has one, and no reachable "
+                "state has two pending activations for one name, so between the start and the end of an activation no second program is started "
+                "(program_started_at_most_once_per_activation, one_pending_activation_per_name, activateService_fresh); when the name is taken the held "
+                "messages go out entry by entry in arrival order: one copy to the new owner first, then eavesdroppers, never a second copy to the owner, "
+                "or, the gate refusing it now that the recipient is known, nothing to the owner and at most one error to the sender; the pending "
+                "activation is gone afterwards, so nothing is delivered twice (held_messages_once_in_arrival_order, allowed_held_message_is_delivered, "
+                "nothing_pending_nothing_sent); StartServiceByName callers get one SUCCESS reply each (start_callers_answered_once); on failure, exit "
+                "or timeout every waiter still connected gets exactly one error carrying its serial unless its own policy refuses the bus's error "
+                "(failure_each_waiter_one_error, connected_waiter_gets_the_error, timeout_fails_every_waiter), exit status 0 is ignored and a program "
+                "nobody waits for dies silently (clean_exit_is_ignored, stale_program_exit_is_silent). The helper (lean/Dbus/Model/Helper.lean: "
+                "run_launch_helper with the service-file parser of bus/desktop-file.c and the command-line splitter of dbus/dbus-shell.c) executes "
+                "a program iff its argument is a valid bus name and the first loadable <name>.service in directory order declares exactly that name, "
+                "an Exec line that splits into words and a User, and what it executes is that word list (helper_executes_iff, "
+                "helper_refuses_invalid_name, helper_refuses_other_name). Tie: (1) generated histories against the real dbus-daemon (ASan/UBSan) "
+                "with service directories whose Exec lines start a stub the harness controls through a FIFO (it reports its start, then ends with a "
+                "chosen exit status or signal, or is left running), any client taking the name at any later point, senders leaving, "
+                "StartServiceByName and auto-start mixed, names whose Exec does not parse or does not exist, two names sharing one command line, "
+                "max_pending_service_starts = 2, policies that refuse at hold time and at delivery time; the start timeout is driven by a virtual "
+                "clock (LD_PRELOAD shim shifting the daemon's gettimeofday/clock_gettime) so that it fires deterministically; compared per "
+                "connection and in order: every delivery, every close, which programs were started (by the stub's log and the daemon's children) "
+                "and which were killed; a trace oracle written from the property text (who waits for what, from the ops and the daemon's own "
+                "replies) classifies disagreements. (2) _dbus_shell_parse_argv and bus_desktop_file_load in process on every string over nine "
+                "shell-significant symbols up to length 4 (6 thorough) plus generated command lines and service files; (3) the real "
+                "dbus-daemon-launch-helper-for-tests on generated service directories (declared names equal to, extending, prefixing or unrelated "
+                "to the request; missing keys; odd quoting), the executed program recording its argument vector.",
+        "note": "Partial: process creation, exit-status plumbing and real time are observed, not modelled (a started program is an output, what it "
+                "does arrives as events; the clock is the harness's); systemd activation, the daemon's own use of the setuid helper "
+                "(<servicehelper>), service files naming unique names and reloading of service directories are outside the model; the helper is "
+                "run in its test build (no setuid checks, no user switch). Observation recorded while building the check: the babysitter process "
+                "forked by dbus-spawn-unix.c keeps copies of all the daemon's descriptors, so a client the daemon drops while an activation is "
+                "pending sees no end-of-file until the babysitter exits; the harness asks the bus instead of relying on EOF.",
+    },
     "C15": {
         "text": "Proved in Lean over a ledger model of descriptors as tokens (lean/Dbus/Model/Bus/Fds.lean: what a sendmsg attaches goes to the connection's "
                 "loader, each framed message takes the number its UNIX_FDS field announces from the front, the bus's copies are closed when the message is "
